@@ -86,8 +86,8 @@ CLAIMS.update({
     'C10': ('Server invariant table_unique (connected clients have pairwise distinct ids and pairwise distinct addresses) is preserved by process_packet_internal and handle_connection_request (Verus, U19, verbatim); '
             'ClientConnected adds exactly one new session in a free slot with an id and address not connected before; ClientDisconnected removes exactly the named session; any other outcome leaves the set of sessions and their keys as they were; '
             'a payload is attributed to the session of the sending address; a request never touches the table of connected clients.',
-            'update_client and disconnect remove exactly the named session and report exactly that id and address; generate_payload_packet addresses the session registered under the id. '
-            'Assumed: find_client_* / free-slot search (one-line iterator chains) by their evident contracts; AEAD idealisation. Not decided: set_max_clients, update (pending expiry), the bound max_clients (the table length is fixed at construction; lowering the limit is outside the property).'),
+            'update_client and disconnect remove exactly the named session and report exactly that id and address; generate_payload_packet addresses the session registered under the id; client_addr / user_data / is_client_connected answer for the one session registered under that id; set_max_clients changes only the limit. '
+            'Assumed: find_client_* / free-slot search (one-line iterator chains) by their evident contracts; AEAD idealisation. NetcodeServer::update drops a half-open session exactly when its token expired (loop body proved, D6; values_mut induction and HashMap::retain assumed, D18/D19). the bound max_clients (the table length is fixed at construction; lowering the limit is outside the property).'),
     'C14': ('Per channel call: payload bytes put into packets (plus the pending small-message batch) equal the decrease of available_bytes, which never grows; '
             'a reliable message or slice that does not fit stays queued untouched, an unreliable message that does not fit is dropped whole (Verus: SendChannelUnreliable::get_packets_to_send '
             'verbatim with loop invariants; body of the reliable send loop outlined by rule D6).',
@@ -117,7 +117,7 @@ CLAIMS.update({
             'timeout_seconds, moves a timed-out connecting client to the next listed address or gives up, produces at most one packet per 250 ms; only a datagram that decoded refreshes '
             'last_packet_received_time (forged/replayed packets do not postpone a timeout).',
             'Server: update_client drops a session only when it was marked disconnected or nothing arrived for more than its timeout_seconds, and sends its keep-alive to that session\'s address. '
-            'Not decided: everything phrased as eventually / within bounded time, NetcodeServer::update (pending expiry), set_max_clients and the two-endpoint composition: '
+            'NetcodeServer::update expires half-open sessions exactly at their token expiry. Not decided: everything phrased as eventually / within bounded time and the two-endpoint composition: '
             'contracts are the wrong tool for that half.'),
 })
 
